@@ -300,7 +300,7 @@ func c17R1(c *Ctx) {
 				if a.Kind != "load" {
 					continue
 				}
-				if isFreshAlloc(a.Base) {
+				if isFreshAlloc(a.Base) && !c.publishedBefore(a.Base, a.In) {
 					continue
 				}
 				must, _ := la.Held(a.In)
@@ -680,4 +680,72 @@ func ownSlotIndex(idx ssa.Value, clo *ssa.Function, mc *ssa.MakeClosure, goI *ss
 		return !written
 	}
 	return false
+}
+
+// publishedBefore: the struct allocated in this function (base) was already handed to another goroutine-capable party
+// when `at` executes: `at` is reachable from a `go` statement, or from a dynamic call (interface method / function
+// value), that receives the object, a closure that captured it or a value built from it. Until then the constructor
+// context is the only one that can see the object; afterwards its reads need the lock like anyone else's.
+func (c *Ctx) publishedBefore(base ssa.Value, at ssa.Instruction) bool {
+	fn := at.Parent()
+	var alloc ssa.Value
+	switch x := base.(type) {
+	case *ssa.Alloc:
+		alloc = x
+	case *ssa.UnOp:
+		if cell, ok := x.X.(*ssa.Alloc); ok {
+			if sv := soleStore(cell); sv != nil {
+				alloc = sv
+			}
+		}
+	}
+	if alloc == nil {
+		return false
+	}
+	carries := func(v ssa.Value) bool {
+		return v == alloc || derivesFrom(v, func(w ssa.Value) bool {
+			if w == alloc {
+				return true
+			}
+			if mc, ok := w.(*ssa.MakeClosure); ok {
+				for _, b := range mc.Bindings {
+					if b == alloc || derivesFrom(b, isValue(alloc)) {
+						return true
+					}
+				}
+			}
+			return false
+		})
+	}
+	pub := false
+	eachInstr(fn, func(r instrRef) {
+		if pub {
+			return
+		}
+		cc := callCommon(r.I)
+		if cc == nil {
+			return
+		}
+		_, isGo := r.I.(*ssa.Go)
+		dynamic := cc.IsInvoke() || cc.StaticCallee() == nil
+		if !isGo && !dynamic {
+			return
+		}
+		if _, isBuiltin := cc.Value.(*ssa.Builtin); isBuiltin {
+			return
+		}
+		hands := false
+		for _, a := range cc.Args {
+			if carries(a) {
+				hands = true
+			}
+		}
+		if isGo && carries(cc.Value) {
+			hands = true
+		}
+		if hands && r.I != at && c.reachableFrom(r.I, at) {
+			pub = true
+		}
+	})
+	return pub
 }
